@@ -3,7 +3,7 @@
 # Uses a scratch worktree of /repo (never /repo itself) through PYEMV_REPO; removes it afterwards.
 HERE="$(cd "$(dirname "$0")/.." && pwd)"
 SRC="${1:-$HERE/seeded}"
-WT=/tmp/verif-selftest-wt
+WT="${VERIF_WT:-/tmp/verif-selftest-wt-$$}"
 git -C /repo worktree remove --force $WT 2>/dev/null
 git -C /repo worktree add -q --detach $WT HEAD || exit 2
 for d in "$SRC"/*/; do
